@@ -6,6 +6,7 @@ mod gen;
 mod imp;
 mod json;
 mod proto;
+mod rabuf_scen;
 mod rng;
 mod run;
 mod scen;
